@@ -89,8 +89,14 @@ pub enum Fault {
     WriteError,
     UnknownMethod,
     WrongTypes,
+    /// an unterminated frame larger than the buffer limit (only with the lowered limit of the
+    /// `zlink_verif_small_buf` build, where it is 4096 bytes)
+    Oversized,
 }
+#[cfg(not(zlink_verif_small_buf))]
 pub const ALL_FAULTS: [Fault; 8] = [Fault::Garbage, Fault::TruncatedThenEof, Fault::EofMidBurst, Fault::Eof, Fault::ReadError, Fault::WriteError, Fault::UnknownMethod, Fault::WrongTypes];
+#[cfg(zlink_verif_small_buf)]
+pub const ALL_FAULTS: [Fault; 9] = [Fault::Garbage, Fault::TruncatedThenEof, Fault::EofMidBurst, Fault::Eof, Fault::ReadError, Fault::WriteError, Fault::UnknownMethod, Fault::WrongTypes, Fault::Oversized];
 
 #[derive(Clone, Copy, Debug, PartialEq, Eq)]
 enum Taint {
@@ -377,6 +383,13 @@ impl<'a> Sim<'a> {
                 strong(c);
                 c.closed = true;
                 c.wire.arrive(b"{\"method\":\"t.Nope\",\"parameters\":{}}\0");
+            }
+            Fault::Oversized => {
+                strong(c);
+                c.closed = true;
+                let mut big = br#"{"method":"t.Plain","parameters":{"n":1,"tag":""#.to_vec();
+                big.extend(std::iter::repeat(b'x').take(4200));
+                c.wire.arrive(&big);
             }
             Fault::WrongTypes => {
                 strong(c);
@@ -755,6 +768,9 @@ impl Harness for Scenario {
                     if f == Fault::WriteError && sim.conns[i].streaming.is_some() {
                         cx.goal("client-unwritable-mid-stream");
                     }
+                    if f == Fault::Oversized {
+                        cx.goal("oversized-frame");
+                    }
                     sim.fault(i, f)
                 }
             }
@@ -833,8 +849,12 @@ pub fn run_c09(tier: Tier) -> i32 {
     plan.push(("streams/2conns/3calls/7-8events/1fault", mk(2, 3, tier.pick(7, 8), 1, false, &bursts), 0));
     let mut a = base_assumptions();
     a.push("a connection struck by EOF / read error / write error may lose replies (its output must stay a prefix of its model); one that sent an undecodable frame is unconstrained afterwards (the server may answer it or drop it); every other connection must match its model exactly".into());
-    a.push("oversized frames are exercised by C17, not here".into());
-    run_plan("C09", tier, RULE, a, &["fault-with-other-connections-live", "connect-after-a-fault"], plan)
+    a.push("this check is built with the buffer limit lowered to 4096 bytes (hook zlink_verif_small_buf), so that an oversized frame is an affordable fault".into());
+    #[cfg(zlink_verif_small_buf)]
+    let goals = ["fault-with-other-connections-live", "connect-after-a-fault", "oversized-frame"];
+    #[cfg(not(zlink_verif_small_buf))]
+    let goals = ["fault-with-other-connections-live", "connect-after-a-fault"];
+    run_plan("C09", tier, RULE, a, &goals, plan)
 }
 
 pub fn run_c10(tier: Tier) -> i32 {
